@@ -1,11 +1,13 @@
 (* Extraction of the executable model for the correspondence check.
    Only ExtrOcamlBasic: Z, positive, N, nat stay Coq datatypes. *)
 Require Import ExtrOcamlBasic.
-From X86 Require Addr.Run Paging.EntryRun Machine.Run Tables.Run Codec.Run.
+From X86 Require Addr.Run Paging.EntryRun Machine.Run Tables.Run Codec.Run Paging.Run Paging.TreeRun.
 Extraction Language OCaml.
 Definition run_addr := Addr.Run.run_addr.
 Definition run_pte := Paging.EntryRun.run_pte.
 Definition run_mach := Machine.Run.run_mach.
 Definition run_tbl := Tables.Run.run_tbl.
 Definition run_codec := Codec.Run.run_codec.
-Extraction "model.ml" run_addr run_pte run_mach run_tbl run_codec.
+Definition run_map := Paging.Run.run_map.
+Definition run_ptree := Paging.TreeRun.run_ptree.
+Extraction "model.ml" run_addr run_pte run_mach run_tbl run_codec run_map run_ptree.
